@@ -71,13 +71,16 @@ theorem jq_sameBut {fl : Flags} {jb jb' : Job} (h : SameBut jb jb') (hQ : JQ fl 
   · unfold HeldPc; rw [h.held, h.pc]; exact hQ.2
 
 /-- the state with the record of `j` replaced by an edited copy. -/
-def edit (s : St) (j : Nat) (jb' : Job) : St := s.put j jb'
+def edit (s : St) (j : Nat) (jb' : Job) : St := { s with jobs := upd s.jobs j jb' }
+
+theorem put_nil_eq (s : St) (j : Nat) (jb' : Job) : s.put j jb' [] [] = edit s j jb' := by
+  simp [St.put, edit]
 
 theorem edit_jobs_ne (s : St) (j : Nat) (jb' : Job) (i : Nat) (hi : i ≠ j) : (edit s j jb').jobs i = s.jobs i := by
   simp [edit, upd_ne _ _ hi]
 theorem edit_jobs_same (s : St) (j : Nat) (jb' : Job) : (edit s j jb').jobs j = jb' := by simp [edit]
-theorem edit_ready (s : St) (j : Nat) (jb' : Job) : (edit s j jb').ready = s.ready := by simp [edit]
-theorem edit_threads (s : St) (j : Nat) (jb' : Job) : (edit s j jb').threads = s.threads := by simp [edit]
+theorem edit_ready (s : St) (j : Nat) (jb' : Job) : (edit s j jb').ready = s.ready := rfl
+theorem edit_threads (s : St) (j : Nat) (jb' : Job) : (edit s j jb').threads = s.threads := rfl
 
 theorem edit_sameBut_all {s : St} {j : Nat} {jb' : Job} (h : SameBut (s.jobs j) jb') (i : Nat) :
     SameBut (s.jobs i) ((edit s j jb').jobs i) := by
@@ -106,5 +109,104 @@ theorem mu_edit {s : St} {j : Nat} {jb' : Job} (h : SameBut (s.jobs j) jb') : mu
     unfold muB; rw [hn]; exact sumTo_congr _ _ _ (fun i _ => by unfold bJ; rw [(hall i).pc, (hall i).state, hS i])
   unfold mu pW cW eW
   rw [hA, hB, hQ, hd, hn, edit_ready, edit_threads]
+
+theorem cap_edit {s : St} {j : Nat} {jb' : Job} (h : SameBut (s.jobs j) jb') {N : Nat}
+    (hi : XpmVerif.Sched.Inv s N) : XpmVerif.Sched.Inv (edit s j jb') N := by
+  have hall := edit_sameBut_all h
+  obtain ⟨h1, h2, h3, h4⟩ := hi
+  refine ⟨fun i => ?_, fun i hN => by rw [(hall i).pc]; exact h2 i hN, h3, fun t => ?_⟩
+  · have := h1 i
+    simp only [PJ, KJ, edit_ready, edit_threads] at this ⊢
+    rw [(hall i).pc, (hall i).sleeping, (hall i).held, (hall i).deps, (hall i).state]
+    exact this
+  · have := h4 t
+    have e : XpmVerif.Sched.sumTo s.n (fun i => heldTok ((edit s j jb').jobs i) t) = XpmVerif.Sched.sumTo s.n (fun i => heldTok (s.jobs i) t) :=
+      XpmVerif.Sched.sumTo_congr (fun i _ => by unfold heldTok; rw [(hall i).deps, (hall i).held])
+    show (edit s j jb').avail t + ((XpmVerif.Sched.sumTo s.n (fun i => heldTok ((edit s j jb').jobs i) t) : Nat) : Int) = _ ∧ _
+    rw [e]; exact this
+
+/-- every invariant survives an edit of `marker` / `code`, as long as the edited record is still truthful. -/
+theorem good_edit {fl : Flags} {s : St} {j : Nat} {jb' : Job} (hG : Good fl s) (h : SameBut (s.jobs j) jb')
+    (hL : JLocal jb') : Good fl (edit s j jb') := by
+  have hall := edit_sameBut_all h
+  have hd : ∀ i k, depAt ((edit s j jb').jobs i) k = depAt (s.jobs i) k := fun i k => depAt_sameBut (hall i) k
+  have hC := hG.e.c
+  refine ⟨⟨⟨⟨?_, ?_, ?_⟩, ?_, ?_, ?_⟩, ?_⟩, ?_, ?_, ⟨?_, ?_⟩, ?_⟩
+  · intro i
+    exact (ctlAt_congr i (hall i).pc (hall i).sleeping (by rw [edit_ready]) (by rw [edit_ready]) (by rw [edit_ready])
+      (by rw [edit_threads]) rfl).2 (hC.a.ctl i)
+  · intro i
+    by_cases hi : i = j
+    · subst hi; rw [edit_jobs_same]; exact hL
+    · rw [edit_jobs_ne _ _ _ _ hi]; exact hC.a.loc i
+  · intro i hi; rw [(hall i).pc]; exact hC.a.blank i hi
+  · refine ⟨fun i hi => by rw [(hall i).deps]; exact hC.st.blankDeps i hi, ?_, ?_, hC.st.effLe, hC.st.regLt, hC.st.resLt, ?_⟩
+    · intro i k o hk ho; rw [(hall i).deps] at hk; rw [hd] at ho; exact hC.st.acyclic i k o hk ho
+    · intro i k t c hk ho; rw [(hall i).deps] at hk; rw [hd] at ho; exact hC.st.tokOK i k t c hk ho
+    · intro i hi; rw [edit_ready] at hi; exact hC.st.regCb i hi
+  · intro i hp; rw [(hall i).pc] at hp; rw [(hall i).state]; exact hC.f i hp
+  · rw [← put_nil_eq]
+    exact put_invD s j jb' [] [] hC.d (jdeep_sameBut h (hC.d.recs j)) h.deps (fun hs => by rw [h.state]; exact hs)
+      (Or.inl ⟨fun e => by rw [h.state]; exact e, fun e => by rw [h.state]; exact e⟩) (by simp)
+  · intro i; exact jq_sameBut (hall i) (hG.e.q i)
+  · have hreg : regTot (edit s j jb') = regTot s := by
+      unfold regTot
+      exact SchedFinal.sumTo_congr _ _ _ (fun i _ => by unfold regC; rw [(hall i).state, (hall i).deps])
+    exact ⟨fun t => by rw [hreg]; exact hG.r.tok t, fun o => by rw [hreg]; exact hG.r.job o⟩
+  · intro i k k' t c c' h1 h2; rw [hd] at h1 h2; exact hG.nd i k k' t c c' h1 h2
+  · rw [edit_ready]; exact hG.b.noreg
+  · have hc := hG.b.count
+    unfold CountC at hc ⊢
+    have : actN (edit s j jb') = actN s := actN_congr rfl (fun i => by unfold act; rw [(hall i).pc])
+    rw [this]; exact hc
+  · obtain ⟨N, hi⟩ := hG.cap
+    exact ⟨N, cap_edit h hi⟩
+
+/-- every invariant survives an enabled `step` / `deliver` event of M2. -/
+theorem good_apply {fl : Flags} (hg : fl.readyGuarded = true) (hf : fl.resubmitRegisters = true)
+    (ha : fl.abortRechecks = true) {s : St} (ev : Ev) (hen : Enabled s ev) (h : Good fl s) : Good fl (s.apply fl ev) := by
+  have hok := evOK_enabled s ev hen
+  obtain ⟨N, hi⟩ := h.cap
+  exact ⟨apply_invE fl hg ha s ev hok h.e, apply_invR fl hg s ev hok h.e.c h.r,
+    noDoubleTok_enabled fl s h.e.c.a.ctl ev hen h.nd, apply_invB fl hg hf s ev h.e.c.a h.b,
+    XpmVerif.Sched.apply_Inv (ar := false) (fun e => by cases e) ev hi⟩
+
+/-! ### the scheduler of the restart world, one event at a time -/
+
+open XpmVerif.Restart in
+/-- the record the first segment works on: the marker is what the job directory shows. -/
+def markerRec (a : StA Disk) (j : Nat) : Job :=
+  { (a.s.jobs j) with marker := (world.look a.d j (a.s.jobs j)).marker }
+
+open XpmVerif.Restart in
+/-- a callback of the world scheduler that adopts nothing is the M2 callback on the state with the marker edited
+    (for `start`), resp. on the state itself. -/
+theorem stepA_noAdopt (fl : Flags) (a : StA Disk) (cb : Cb) (rest : List Cb) (hr : a.s.ready = cb :: rest)
+    (hna : ∀ j, cb = .start j → (world.look a.d j (a.s.jobs j)).adopt = false) :
+    (stepA fl world a).s =
+      (match cb with
+       | .start j => edit a.s j (markerRec a j)
+       | _ => a.s).apply fl .step := by
+  rw [stepA_cons fl world a cb rest hr]
+  cases cb with
+  | start j =>
+    have h0 := hna j rfl
+    have h0' : (world.look a.d j (({ a.s with ready := rest } : St).jobs j)).adopt = false := h0
+    simp only [runCbA, h0', Bool.false_eq_true, if_false, startJobA, St.apply]
+    unfold St.step
+    simp only [edit, hr]
+    simp only [St.runCb]
+    congr 1
+    simp [St.put, markerRec]
+  | resume j =>
+    simp only [runCbA, St.apply]
+    unfold St.step
+    simp only [hr]
+    split <;> rfl
+  | register j => simp only [runCbA, St.apply]; unfold St.step; simp only [hr]
+  | wake j => simp only [runCbA, St.apply]; unfold St.step; simp only [hr]
+  | check j d => simp only [runCbA, St.apply]; unfold St.step; simp only [hr]
+  | notifyCheck j d => simp only [runCbA, St.apply]; unfold St.step; simp only [hr]
+  | waiterRun => simp only [runCbA, St.apply]; unfold St.step; simp only [hr]
 
 end XpmVerif.RestartTerm
